@@ -168,7 +168,14 @@ class TriggerContext:
             # into ONE namespace (locals over globals): a generator expression or lambda inside the expression is a
             # nested scope, which can see the global namespace of an eval but never its local one
             scope = dict(getattr(self.__frame, 'f_globals', None) or {})
-            scope.update(self.__frame.f_locals)
+            f_locals = self.__frame.f_locals
+            scope.update(f_locals)
+            # a local of the function that is not bound yet hides the global of the same name: at that line the name
+            # gives an error, not the value of the global
+            code = getattr(self.__frame, 'f_code', None)
+            for name in getattr(code, 'co_varnames', ()) + getattr(code, 'co_cellvars', ()):
+                if name not in f_locals:
+                    scope.pop(name, None)
             return True, eval(expression, scope)
         except BaseException as e:
             return False, e
